@@ -311,7 +311,7 @@ func Method(name string, recv Pat, args ...Pat) Pat {
 			return inv(v, b)
 		}
 		f := c.Call.StaticCallee()
-		if f == nil || f.Name() != name || f.Signature.Recv() == nil || len(c.Call.Args) == 0 {
+		if f == nil || Origin(f).Name() != name || f.Signature.Recv() == nil || len(c.Call.Args) == 0 {
 			return false
 		}
 		if !recv(c.Call.Args[0], b) {
